@@ -43,6 +43,7 @@ FClose(a, b, rel, abs) == CHOOSE x \in BOOLEAN : TRUE
 \* value of printf("%.10E", a) read back with strtod: 11 significant digits, round-half-even on the exact binary value
 FRound11(a) == CHOOSE x \in Dbl : TRUE
 FRoundF6(a) == CHOOSE x \in Dbl : TRUE   \* value of printf("%f", a) read back (6 decimals)
+FRound32(a) == CHOOSE x \in Dbl : TRUE   \* nearest single-precision number (the value of a float literal / of (double)(float)a)
 FStr(a)     == CHOOSE x \in STRING : TRUE  \* shortest round-trip decimal, for reports only
 FUlps(a, b) == CHOOSE x \in Int : TRUE     \* distance in units of the last place, capped at 1000000
 FToInt(a)   == CHOOSE x \in Int : TRUE     \* C cast (int)a, for finite |a| < 2^31
